@@ -267,3 +267,21 @@ def truthiness_uses(fnode, names):
             seen.add(id(e))
             uniq.append(e)
     return uniq
+
+
+def returned_values(fnode):
+    """[(value expression, node to report)] for every `return <value>`; a returned local that is assigned exactly once
+    in the function is replaced by the expression it was assigned (so `x = e; ...; return x` and `return e` look alike)."""
+    defs = {}
+    for st in walk_local(fnode):
+        if isinstance(st, ast.Assign) and len(st.targets) == 1 and isinstance(st.targets[0], ast.Name):
+            defs.setdefault(st.targets[0].id, []).append(st)
+    out = []
+    for st in walk_local(fnode):
+        if isinstance(st, ast.Return) and st.value is not None:
+            v = st.value
+            if isinstance(v, ast.Name) and len(defs.get(v.id, [])) == 1:
+                out.append((defs[v.id][0].value, defs[v.id][0]))
+            else:
+                out.append((v, st))
+    return out
